@@ -210,6 +210,28 @@ pub fn run(args: &Args) {
             }
         }
     }
+    // wing-only differences: a right on the wrong side of the king is inexpressible and must be refused; if a builder
+    // state with one is accepted, the pair (short on f / long on f) is a pair of boards at distance one
+    for &c in &Color::ALL {
+        let br = Rank::First.relative_to(c);
+        for &(kf, rf) in &[(File::E, File::A), (File::E, File::H), (File::B, File::G), (File::G, File::B)] {
+            let mut base = BoardBuilder::empty();
+            let other = Square::new(if rf == File::E { File::D } else { File::E }, Rank::Fifth.relative_to(c));
+            if c == Color::White {
+                kings(&mut base, Square::new(kf, br), other);
+            } else {
+                kings(&mut base, other, Square::new(kf, br));
+            }
+            *base.square_mut(Square::new(rf, br)) = Some((Piece::Rook, c));
+            let mut s1 = base.clone();
+            s1.castle_rights_mut(c).short = Some(rf);
+            let mut s2 = base.clone();
+            s2.castle_rights_mut(c).long = Some(rf);
+            if let (Some(a), Some(b)) = (build(&s1), build(&s2)) {
+                sh.emit("pairh", &format!("\"a\":{},\"o\":{},\"ha\":{},\"ho\":{}", proj(&a), proj(&b), limbs(a.hash()), limbs(b.hash())));
+            }
+        }
+    }
     sh.emit("extracted", &format!("\"unisolated\":{}", missing));
     // the linear model on other boards: h = XOR of the keys of the position's features
     let roots = Roots::load();
@@ -222,6 +244,13 @@ pub fn run(args: &Args) {
                     break;
                 }
                 b.play_unchecked(*rng.pick(&mv));
+                // null moves inside the walk, preferably right after a double push (ep file set)
+                if b.checkers().is_empty() && (rng.chance(1, 6) || (b.en_passant().is_some() && rng.chance(1, 2))) {
+                    if let Some(n) = b.null_move() {
+                        b = n;
+                        sh.emit("lin", &format!("\"a\":{},\"ha\":{}", proj(&b), limbs(b.hash())));
+                    }
+                }
             }
             sh.emit("lin", &format!("\"a\":{},\"ha\":{}", proj(&b), limbs(b.hash())));
         }
